@@ -51,6 +51,7 @@ func scenarioC02(r *Run) {
 	g := NewGen(r)
 	g.PlainQER = true
 	g.DrawAvoid()
+	g.PDIOrders = true
 	var sent []*sentReq
 	seqFor := func(p *Peer) uint32 {
 		switch r.Ch.Choose(8, "seqkind") {
